@@ -88,6 +88,56 @@ def static_accesses(func, writes_param=None):
         out.append(Access(func, node, ref['name'], write, how, bool(ref.get('staticLocal')), False,
                           _var_type(func, ref)))
 
+    # local pointers that alias static storage (char *p = staticBuf; p = &staticObj; ...)
+    from .dataflow import PtrTaint
+
+    def static_seed(x):
+        if x.k == 'DeclRefExpr' and x['ref']['kind'] == 'var' and x['ref'].get('staticStorage'):
+            return (x.get('ct') or '').rstrip().endswith(']')
+        if x.k == 'UnaryOperator' and x['op'] == '&':
+            t = strip(x.ch[0])
+            return t is not None and t.k == 'DeclRefExpr' and t['ref']['kind'] == 'var' and bool(t['ref'].get('staticStorage'))
+        return False
+    pt = PtrTaint(func, static_seed)
+
+    def alias_root(e):
+        """the static variable a derived local pointer expression may point into"""
+        for x in e.walk():
+            if x.k == 'DeclRefExpr' and x['ref']['kind'] == 'var' and x['ref']['id'] in pt.derived:
+                from .dataflow import def_exprs
+                for d in def_exprs(func, x['ref']['id']):
+                    for y in d.walk():
+                        if static_seed(y):
+                            t = y if y.k == 'DeclRefExpr' else strip(y.ch[0])
+                            return t['ref']
+        return None
+    if pt.derived:
+        for n in func.body.walk():
+            if n.k == 'CallExpr':
+                ptypes = n.get('calleeParamTypes') or []
+                for i, a in enumerate(n.ch[1:]):
+                    if a is None or not (a.get('ct') or '').rstrip().endswith('*'):
+                        continue
+                    sa = strip(a)
+                    if sa is None or sa.k != 'DeclRefExpr' or sa['ref']['id'] not in pt.derived:
+                        continue
+                    pty = ptypes[i] if i < len(ptypes) else (a.get('ct') or '')
+                    if _pointee_const(pty):
+                        continue
+                    if writes_param is not None and n.get('callee') and writes_param(func, n['callee'], i) is False:
+                        continue
+                    r0 = alias_root(a)
+                    if r0 is not None:
+                        add(n, r0, True, 'static storage passed (through local pointer %s) as writable argument #%d of %s' % (
+                            sa['ref']['name'], i, n.get('callee') or 'indirect call'))
+            elif n.k in ('BinaryOperator', 'CompoundAssignOperator') and (n['op'] == '=' or n.k == 'CompoundAssignOperator'):
+                l = strip(n.ch[0])
+                if l.k == 'ArraySubscriptExpr' or (l.k == 'UnaryOperator' and l['op'] == '*'):
+                    b0 = strip(l.ch[0])
+                    if b0 is not None and b0.k == 'DeclRefExpr' and b0['ref']['id'] in pt.derived:
+                        r0 = alias_root(b0)
+                        if r0 is not None:
+                            add(n, r0, True, 'store through local pointer %s into static storage' % b0['ref']['name'])
     for n in func.body.walk():
         if n.k in ('BinaryOperator', 'CompoundAssignOperator') and (n['op'] == '=' or n.k == 'CompoundAssignOperator'):
             l = strip(n.ch[0])
